@@ -26,12 +26,13 @@ def do_replay(path):
     info = harness.setup(need_release=True)
     with open(path) as f:
         w = json.load(f)
-    sc = w['scenario']
-    for prof in ('dev', 'release'):
-        nat = harness.native(prof).run(sc)
-        print('%s: %s' % (prof, json.dumps({k: nat.get(k) for k in ('ok', 'panic', 'hang', 'abort')})))
-        if nat.get('ok') and nat.get('out'):
-            print('   final state:', json.dumps(nat['out'][-1])[:600])
+    for i, sc in enumerate(w.get('scenarios') or [w['scenario']]):
+        print('scenario %d: %s' % (i, json.dumps(sc.get('steps'))[:300]))
+        for prof in ('dev', 'release'):
+            nat = harness.native(prof).run(sc)
+            print('  %s: %s' % (prof, json.dumps({k: nat.get(k) for k in ('ok', 'panic', 'hang', 'abort')})))
+            if nat.get('ok') and nat.get('out'):
+                print('     final state:', json.dumps(nat['out'][-1])[:600])
     print('expected by the check:', w.get('label'), '|', json.dumps(w.get('what'))[:400])
     return 0
 
